@@ -111,7 +111,11 @@ def execute(run):
                 # a fit that raises leaves no fitted vine to speak about; it is gated only for
                 # tables without near-perfect dependence (all pairwise |tau| <= 0.9), where a
                 # refusal cannot be blamed on degenerate conditional data
-                if off.size and float(np.max(off)) <= 0.9:
+                if len(df) < 30:
+                    # a handful of rows cannot carry a deep vine: conditional data degenerate
+                    # (Kendall's tau undefined) and the fit refuses - not gated
+                    ctx.probes['fit_raised_on_table_with_fewer_than_30_rows'] += 1
+                elif off.size and float(np.max(off)) <= 0.9:
                     ctx.violate('fit_succeeds', SUBJECT,
                                 'fit raised %s: %s' % (outcome_class(out), str(out[1])[:160]),
                                 exc=outcome_class(out), max_abs_tau=float(np.max(off)), **cond)
